@@ -56,6 +56,7 @@ CHECKS = {
     },
     "C15": {
         "level": "exploration",
+        "termination_clauses": {"c15-retry-queue": ["emit-returns"]},
         "groups": [
             {"name": "c15", "run": "^TestC15_", "shards": {"quick": 8, "thorough": 16},
              "timeout": {"quick": 600, "thorough": 3000},
